@@ -394,9 +394,10 @@ class MultiTypeMap(dict):
                 else [(parent, *obj_t_tup) for parent in parents]
             )
             if func is None:
+                # Ambiguous rank: remember the error, but keep laying out the
+                # continuations of the ranks below it
                 for tup in tups:
                     self.errors[tup] = self.key_error(obj_t_tup, group)
-                break
             else:
                 for tup in tups:
                     self[tup] = func
@@ -409,7 +410,9 @@ class MultiTypeMap(dict):
     def __missing__(self, obj_t_tup):
         if obj_t_tup and isinstance(obj_t_tup[0], CodeType):
             real_tup = obj_t_tup[1:]
-            self[real_tup]
+            if real_tup not in self and real_tup not in self.errors:
+                # The first rank may be ambiguous, that is not the caller's concern
+                self.resolve(real_tup)
             if obj_t_tup[0] not in self.all[real_tup]:
                 return self[real_tup]
             elif obj_t_tup in self.errors:
